@@ -140,8 +140,10 @@ type Report struct {
 	Samples   []string       `json:"samples"`
 	Shards    []string       `json:"shards"`
 	Panics    []string       `json:"panics"`
-	seen      map[[32]byte]bool
-	knownSeen map[string]int
+	// distr kind: cases outside the hypotheses of the ledger refinement theorem (known-finding shapes, a failed sweep, a panic)
+	LedgerExempt []int `json:"ledger_exempt"`
+	seen         map[[32]byte]bool
+	knownSeen    map[string]int
 }
 
 // NoteCase records a case for the distinct / non-trivial count.
@@ -219,6 +221,10 @@ func writeShardsFn(dir, kind, require, caseType, fn string, terms []string, shar
 		sb.WriteString("Definition cases : list " + caseType + " := [\n")
 		sb.WriteString(strings.Join(terms[lo:hi], ";\n"))
 		sb.WriteString("\n].\nDefinition M := Eval vm_compute in " + fn + " cases.\nPrint M.\n")
+		if require == "Distributor" {
+			// the credited-amounts machine next to the model on the same cases (LedgerCheck.v)
+			sb.WriteString("From C4E Require Import LedgerCheck.\nDefinition L := Eval vm_compute in ledger_disagreements cases.\nPrint L.\n")
+		}
 		if err := os.WriteFile(name, []byte(sb.String()), 0o644); err != nil {
 			panic(err)
 		}
